@@ -6,7 +6,7 @@ CONFIG = {
         "files": ["ledger/eval/zz_verif_c18_test.go"],
         "util": [("ledger/eval", "eval")],
         "env": {"quick": {"VERIF_C18_UNIVERSES": 90, "VERIF_C18_BLOCKS": 8, "VERIF_C18_GROUPS": 10},
-                "thorough": {"VERIF_C18_UNIVERSES": 3000, "VERIF_C18_BLOCKS": 10, "VERIF_C18_GROUPS": 12}},
+                "thorough": {"VERIF_C18_UNIVERSES": 2400, "VERIF_C18_BLOCKS": 10, "VERIF_C18_GROUPS": 12}},
         "timeout": {"quick": 600, "thorough": 3000},
     }],
     "rule": "one case = one block of the real BlockEvaluator over a closed 9-account ledger (fee sink, rewards pool, offline / online / "
